@@ -18,7 +18,7 @@ NonBar(gs) == SelectSeq(gs, LAMBDA g : g.k # "BAR")
 \* what a gate does, ignoring which library class/object it is
 Core(g) == [k |-> g.k, w |-> g.w, m |-> IF g.k \in {"P", "MCP"} THEN g.m ELSE 0]
 Cores(gs) == [j \in 1..Len(gs) |-> Core(gs[j])]
-IsCl(g) == g.k \in {"X", "MCX"}
+IsCl(g) == g.k \in {"X", "MCX", "I"}          \* the gates a classical run is made of (the identity is one of the library's ZB_GATES)
 
 ---------------------------------------------------------------------------
 (* C11.  case: gates, nq, names (name of qubit q as used in expressions),   *)
